@@ -186,6 +186,8 @@ pub struct Spec {
     pub annot: Option<&'static str>,
     /// translate only from the first top-level statement whose token string (or `let` initialiser) starts with this
     pub from: Option<&'static str>,
+    /// always emit the monadic form (a pure kernel would change its TYPE when a `debug_assert!` is added to the source)
+    pub force_monadic: bool,
 }
 
 impl Spec {
@@ -268,7 +270,7 @@ fn base(module: &'static str, group: &'static str, file: &'static str, name: &'s
         recv_groups: vec![], id_methods: vec![], skip_as: vec![], rewrite: vec![], ctors: vec![], argsel: vec![],
         skip_loops: false, ret_wrap: None, note: "",
         type_params: vec![], recv_arg: vec![], break_value: false, loop_cond: false, effects_ret: false, with_locals: vec![],
-        ptr_checked: false, closure_params: vec![], after_loop: None, skip_lets: vec![], iter_fold: None, via: None, positions: vec![], attr_filter: None, inventory: None, inventory_derives: vec![], annot: None, from: None,
+        ptr_checked: false, closure_params: vec![], after_loop: None, skip_lets: vec![], iter_fold: None, via: None, positions: vec![], attr_filter: None, inventory: None, inventory_derives: vec![], annot: None, from: None, force_monadic: false,
     }
 }
 
@@ -480,6 +482,7 @@ pub fn table() -> Vec<Spec> {
         s.extra = vec![addr_u(), addr_p(), ex("self . size", "size", Ty::Int(64)), mm("self . mmap", "mmap")];
         s.fns = vec![slice_at()];
         s.ctors = vec![("with_bitmap", vec![0, 2, 3])];
+        s.force_monadic = true;
         t.push(s);
         let mut s = vk("vs_subslice_view", "subslice", vsl("subslice"));
         s.type_params = vec!["BM", "E"];
@@ -492,6 +495,7 @@ pub fn table() -> Vec<Spec> {
         s.extra = vec![addr_u(), addr_p(), ex("self . size", "size", Ty::Int(64)), mm("self . mmap", "mmap"), bmx("self . bitmap . clone ()", "bm")];
         s.fns = vec![slice_at()];
         s.ctors = vec![("with_bitmap", vec![0, 2, 3])];
+        s.force_monadic = true;
         t.push(s);
         // VolatileMemory::{get_ref, get_array_ref}: the accessor is built from the fields of the slice get_slice returned
         let slice_fields = || vec![ex("slice . addr", "sl_addr", Ty::Ptr), bmx("slice . bitmap", "sl_bm"), mm("slice . mmap", "sl_mmap"),
